@@ -44,7 +44,7 @@ SENT2 = "Z9HIDDENw"
 
 class Logs:
     def __init__(self) -> None:
-        self.attr: list[tuple[str, str, int]] = []   # (name, filename, lineno of the reader)
+        self.attr: list[tuple[str, str, int, str]] = []   # (name, reader filename, lineno, kind of the object)
         self.calls: list[str] = []                   # non-protocol methods / callables called
         self.getitem: list[tuple[int, Any]] = []     # (object id in spec, key)
         self.filter_args: list[tuple[str, Any]] = []
@@ -60,16 +60,20 @@ LOG = Logs()
 _oget = object.__getattribute__
 
 
-def _log_read(name: str) -> None:
+def _log_read(name: str, kind: str) -> None:
     f = sys._getframe(2)
-    LOG.attr.append((name, f.f_code.co_filename, f.f_lineno))
+    LOG.attr.append((name, f.f_code.co_filename, f.f_lineno, kind))
 
 
 class Base:
     """Instrumented instance: every attribute read is recorded with its reader."""
 
     def __getattribute__(self, name: str) -> Any:
-        _log_read(name)
+        try:
+            kind = _oget(self, "_c05")["kind"]
+        except (AttributeError, KeyError):
+            kind = "plain"
+        _log_read(name, kind)
         return _oget(self, name)
 
     def __str__(self) -> str:
@@ -82,7 +86,7 @@ class LogMeta(type):
     """Metaclass of classes that are passed to templates *as data*."""
 
     def __getattribute__(cls, name: str) -> Any:
-        _log_read(name)
+        _log_read(name, "class")
         return type.__getattribute__(cls, name)
 
     def __str__(cls) -> str:
@@ -93,7 +97,7 @@ class LogMeta(type):
 
 class LogModule(types.ModuleType):
     def __getattribute__(self, name: str) -> Any:
-        _log_read(name)
+        _log_read(name, "module")
         return types.ModuleType.__getattribute__(self, name)
 
     def __repr__(self) -> str:
@@ -248,7 +252,8 @@ def _build_obj(o: dict, memo: dict[int, Any]) -> Any:
                           o.get("html") is not None, o.get("int") is not None, o.get("len"),
                           members, shape == "callable")
     obj = cls.__new__(cls)
-    p: dict[str, Any] = {"str": o["str"], "id": oid, "html": o.get("html"), "int": o.get("int")}
+    p: dict[str, Any] = {"str": o["str"], "id": oid, "html": o.get("html"), "int": o.get("int"),
+                         "kind": o["kind"]}
     object.__setattr__(obj, "_c05", p)
     memo[oid] = obj
     p["liq"] = build(o["liq"], memo) if o.get("liq") is not None else None
@@ -554,6 +559,13 @@ DUNDERS = ["__class__", "__dict__", "__init__", "__globals__", "__mro__", "__sub
            "__doc__", "__module__", "__getitem__", "__len__", "__str__", "__liquid__",
            "__html__", "__getitem_async__", "_c05", "force_liquid_default", "gettext"]
 STRS = ["x", "y", "T", "a", "b", "1"]
+# Attribute names that coincide with Mapping / Sequence / str / datetime method
+# names or with Liquid's special properties: a type check loosened to duck
+# typing (`hasattr(obj, "items")`) would reach them.
+DUCK_NAMES = ["items", "keys", "values", "get", "first", "last", "size", "count", "index",
+              "strftime", "isoformat", "timestamp", "format", "join", "split", "lower", "poke"]
+DUCK_EXCLUDE = {"mapping": {"items", "keys", "values", "get"}, "sequence": {"index", "count"}, "plain": set()}
+DUCK_ITEMS = ("list", [("list", [("str", "k"), ("str", SENT + "i")])])
 
 
 class Gen:
@@ -589,9 +601,20 @@ class Gen:
         ks = self.r.sample(ITEM_KEYS, self.r.randint(lo, 4))
         return [(k, self.value(depth)) for k in ks]
 
-    def attrs(self, depth: int, exposed: list[str]) -> list[tuple[str, tuple]]:
+    def attrs(self, depth: int, exposed: list[str], kind: str = "plain") -> list[tuple[str, tuple]]:
         r = self.r
         out: list[tuple[str, tuple]] = [("secret", ("val", ("str", SENT)))]
+        if r.random() < 0.45:
+            # methods / properties / plain attributes named like protocol methods
+            names = [n for n in DUCK_NAMES if n not in DUCK_EXCLUDE[kind] and n not in exposed]
+            for name in r.sample(names, r.randint(1, 3)):
+                k = r.random()
+                if k < 0.5:
+                    out.append((name, ("call", SENT + "c")))
+                elif k < 0.85:
+                    out.append((name, ("prop", DUCK_ITEMS if r.random() < 0.5 else ("str", SENT + "q"))))
+                else:
+                    out.append((name, ("val", DUCK_ITEMS)))
         for name in r.sample(ATTR_NAMES[1:], r.randint(0, 3)):
             if name == "prop":
                 out.append((name, ("prop", ("str", SENT + "p"))))
@@ -629,7 +652,7 @@ class Gen:
         if r.random() < 0.15:
             o["liq"] = r.choice([("int", 0), ("int", 1), ("str", "a"), ("str", "secret"),
                                  ("bool", False), ("nil",), ("str", "")])
-        o["attrs"] = self.attrs(depth, [k for k, _ in o["items"]])
+        o["attrs"] = self.attrs(depth, [k for k, _ in o["items"]], kind)
         return ("obj", o)
 
     def class_obj(self) -> tuple:
@@ -644,7 +667,8 @@ class Gen:
         return ("obj", {"id": self.nid, "kind": "plain", "shape": "module", "hg": False, "async": False,
                         "liq": None, "items": [], "aitems": [], "seq": [], "modname": "secretmod",
                         "str": "<module 'secretmod'>",
-                        "attrs": [("secret", ("val", ("str", SENT))), ("meth", ("call", SENT + "m"))]})
+                        "attrs": [("secret", ("val", ("str", SENT))), ("meth", ("call", SENT + "m")),
+                                  ("items", ("call", SENT + "c")), ("first", ("val", ("str", SENT + "f")))]})
 
     def callable_obj(self) -> tuple:
         self.nid += 1
@@ -1125,6 +1149,11 @@ def canon(o: tuple) -> tuple:
 # _getitem helpers, obj.__class__.__name__ in error messages, and obj.items()
 # which is only reached under isinstance(obj, Mapping) (iteration of a Mapping).
 PROTOCOL_LITERALS = {"__liquid__", "__html__", "__getitem_async__", "__getitem__", "__class__", "items"}
+# ... but the Mapping / Sequence mixin methods are protocol only for objects
+# that ARE Mappings / Sequences: on any other object `items`, `keys`, `get`,
+# `index` ... are ordinary Python attributes (duck typing on them is a leak).
+MAPPING_ONLY = {"items", "keys", "values", "get"}
+SEQUENCE_ONLY = {"index", "count", "__reversed__"}
 # obj[key] on a *class* object makes CPython look up __class_getitem__ on it:
 # that is item access by key, performed by the interpreter.
 CPYTHON_SUBSCRIPT_READS = {"__class_getitem__"}
@@ -1161,8 +1190,13 @@ def _scan(x: Any, depth: int = 0) -> bool:
 def check_logs(repo_liquid2: str) -> list[tuple[str, str]]:
     """(signature, description) for every oracle failure visible in LOG."""
     bad: list[tuple[str, str]] = []
-    for name, filename, lineno in LOG.attr:
-        if filename.startswith(repo_liquid2):
+    for name, filename, lineno, kind in LOG.attr:
+        if (name in MAPPING_ONLY and kind != "mapping") or (name in SEQUENCE_ONLY and kind != "sequence"):
+            bad.append(("mixin-name-read-on-non-collection",
+                        f"attribute {name!r} of a {kind} object (not a "
+                        f"{'Mapping' if name in MAPPING_ONLY else 'Sequence'}) read at {filename}:{lineno}: "
+                        f"{linecache.getline(filename, lineno).strip()[:80]}"))
+        elif filename.startswith(repo_liquid2):
             ctx = "".join(linecache.getline(filename, n) for n in range(lineno - 2, lineno + 3))
             here = linecache.getline(filename, lineno)
             literal = (f'"{name}"' in ctx or f"'{name}'" in ctx or re.search(r"\.%s\b" % re.escape(name), ctx))
@@ -1407,6 +1441,123 @@ def callable_programs(g: Gen) -> list[tuple[list, list[tuple[str, tuple]]]]:
     return [(p, data) for p in progs]
 
 
+def duck_data() -> list[tuple[str, tuple]]:
+    """Objects of every shape whose METHODS and PROPERTIES are named like
+    Mapping / Sequence / str / datetime methods and Liquid's special
+    properties, each answering the secret."""
+    call = lambda n: (n, ("call", SENT + "c"))  # noqa: E731
+    prop = lambda n, v=("str", SENT + "q"): (n, ("prop", v))  # noqa: E731
+    sec = ("secret", ("val", ("str", SENT)))
+    base = {"shape": "inst", "async": False, "liq": None, "items": [], "aitems": [], "seq": []}
+    pd = dict(base, id=1, kind="plain", hg=False, str="P#1",
+              attrs=[sec] + [call(n) for n in DUCK_NAMES])
+    pp = dict(base, id=2, kind="plain", hg=False, str="P#2",
+              attrs=[sec, prop("items", DUCK_ITEMS), prop("keys", DUCK_ITEMS), prop("values", DUCK_ITEMS),
+                     prop("size", ("int", 41)), prop("count", ("int", 41))]
+              + [prop(n) for n in DUCK_NAMES if n not in ("items", "keys", "values", "size", "count")])
+    sd = dict(base, id=3, kind="sequence", hg=True, str="Q#3", seq=[("int", 1), ("str", "q")],
+              attrs=[sec, call("items"), prop("keys", DUCK_ITEMS), call("values"), call("get"), prop("first"),
+                     call("last"), prop("size", ("int", 99)), call("strftime"), call("isoformat"),
+                     call("join"), call("split"), call("format"), ("timestamp", ("val", DUCK_ITEMS))])
+    md = dict(base, id=4, kind="mapping", hg=True, str="M#4", items=[("a", ("int", 1))],
+              attrs=[sec, call("first"), prop("last"), prop("size", ("int", 99)), call("count"), call("index"),
+                     call("strftime"), call("isoformat"), call("join"), call("split"), call("format")])
+    cd = dict(base, id=5, kind="plain", shape="class", hg=False, str="<class 'K5'>",
+              attrs=[sec, call("items"), call("keys"), call("get"), ("first", ("val", ("str", SENT + "f"))),
+                     ("size", ("val", ("int", 41))), call("strftime"), call("join")])
+    objs = {k: ("obj", v) for k, v in (("pd", pd), ("pp", pp), ("sd", sd), ("md", md), ("cd", cd))}
+    data = list(objs.items())
+    data.append(("l", ("list", [objs["pd"], objs["pp"], objs["sd"], objs["md"]])))
+    data.append(("d", ("dict", [("k", objs["pd"]), ("n", ("int", 1))])))
+    return data
+
+
+DUCK_VARS = ["pd", "pp", "sd", "md", "cd"]
+
+
+def duck_programs(thorough: bool = False) -> list[tuple[list, list[tuple[str, tuple]]]]:
+    """for-iterables, .first/.last/.size roots, filter inputs and arguments (evaluator fragment)."""
+    data = duck_data()
+    J = ("join", [("pos", ("str", ","))])
+    P = lambda root, *segs: ("path", root, [("s", x) for x in segs])  # noqa: E731
+    S = lambda k: ("pos", ("str", k))  # noqa: E731
+    progs: list[list] = []
+    for v in DUCK_VARS:
+        progs += [
+            [("for", "x", P(v), [("out", (P("x"), [])), ("text", ",")], [("text", "none")])],
+            [("for", "x", P(v, "items"), [("out", (P("x"), [])), ("text", ",")], [("text", "none")])],
+            [("out", (P(v, "first"), [])), ("text", "|"), ("out", (P(v, "last"), [])), ("text", "|"),
+             ("out", (P(v, "size"), []))],
+            [("out", (P(v, "items"), [])), ("text", "|"), ("out", (P(v, "keys", "first"), [])), ("text", "|"),
+             ("out", (P(v, "first", "first"), [])), ("text", "|"), ("out", (P(v, "get"), []))],
+            [("out", (P(v), [("first", [])])), ("text", "|"), ("out", (P(v), [("last", [])])), ("text", "|"),
+             ("out", (P(v), [("size", [])]))],
+            [("out", (P(v), [J]))],
+            [("out", (P(v), [("default", [S("D")])]))],
+            [("out", (("str", ""), [("default", [("pos", P(v))])]))],
+            [("out", (P("l"), [("join", [("pos", P(v))])]))],
+            [("if", ("prim", P(v, "first")), [("text", "T")], [("text", "E")])],
+            [("if", ("cmp", "contains", ("prim", P(v)), ("prim", ("str", "items"))), [("text", "T")], [("text", "E")])],
+            [("if", ("cmp", "in", ("prim", ("str", "first")), ("prim", P(v))), [("text", "T")], [("text", "E")])],
+            [("if", ("cmp", "eq", ("prim", P(v, "size")), ("prim", ("int", 41))), [("text", "T")], [("text", "E")])],
+        ]
+        for key in (("items", "first", "size", "get", "strftime") if thorough else ("items", "first", "size")):
+            progs += [
+                [("out", (P(v), [("map", [S(key)]), J]))],
+                [("out", (P(v), [("where", [S(key)]), ("size", [])]))],
+                [("out", (P(v), [("sort", [S(key)]), ("size", [])]))],
+                [("out", (P(v), [("sum", [S(key)])]))],
+                [("out", (P(v), [("uniq", [S(key)]), ("size", [])]))],
+                [("out", (P(v), [("compact", [S(key)]), ("size", [])]))],
+                [("out", (P(v), [("find", [S(key)])]))],
+                [("out", (P(v), [("has", [S(key)])]))],
+            ]
+    for key in (("items", "first", "size", "keys", "last", "join") if thorough else ("items", "first", "size")):
+        progs += [
+            [("out", (P("l"), [("map", [("lam", ["x"], ("prim", P("x", key)))]), J]))],
+            [("out", (P("l"), [("map", [S(key)]), J]))],
+            [("out", (P("l"), [("where", [S(key)]), ("size", [])]))],
+            [("out", (P("l"), [("sum", [S(key)])]))],
+            [("out", (P("l"), [("find", [("lam", ["x"], ("prim", P("x", key)))]), ("size", [])]))],
+            [("for", "x", P("l"), [("out", (P("x", key), [])), ("text", ",")], [])],
+            [("for", "x", P("d"), [("out", (("path", "x", [("i", 1), ("s", key)]), [])), ("text", ",")], [])],
+        ]
+    return [(p, data) for p in progs]
+
+
+def duck_templates() -> list[tuple[str, bool]]:
+    """The same objects through the tags and filters outside the evaluator fragment."""
+    out: list[tuple[str, bool]] = []
+    for v in DUCK_VARS:
+        out += [(t, False) for t in [
+            f"{{% for x in {v} limit: {v}.size offset: {v}.first %}}[{{{{ x }}}}]{{% endfor %}}",
+            f"{{% for x in {v} reversed %}}[{{{{ x }}}}]{{% endfor %}}|{{% for x in ({v}.first..{v}.size) %}}{{{{ x }}}}{{% endfor %}}",
+            f"{{% include 'p' for {v} as x %}}|{{% render 'p' for {v} as x %}}|{{% render 'p' for {v}.items as v %}}",
+            f"{{{{ {v} | date: '%Y' }}}}|{{{{ {v}.strftime | date: '%Y' }}}}",
+            f"{{{{ 1 | date: {v} }}}}",
+            f"{{{{ {v} | date: {v}.strftime }}}}",
+            f"{{{{ l | concat: {v} | size }}}}",
+            f"{{{{ {v} | concat: l | size }}}}",
+            f"{{{{ 'a,b' | split: {v} | join: '-' }}}}|{{{{ {v} | split: ',' | join: '-' }}}}",
+            f"{{{{ {v} | reverse | join: ',' }}}}|{{{{ {v} | slice: 0 }}}}|{{{{ {v} | json }}}}",
+            f"{{{{ {v} | sort_natural: 'items' | size }}}}|{{{{ {v} | sort_numeric: 'size' | size }}}}",
+            f"{{{{ {v} | times: 2 }}}}|{{{{ {v} | plus: {v}.size }}}}|{{{{ {v} | append: {v}.first }}}}",
+            f"{{{{ {v} | upcase }}}}|{{{{ {v} | url_encode }}}}|{{{{ {v} | truncate: {v}.size }}}}",
+            f"{{% cycle {v}, {v}.first %}}|{{% case {v}.size %}}{{% when 41 %}}A{{% else %}}B{{% endcase %}}",
+            f"{{% with q: {v} %}}{{% for x in q %}}{{{{ x }}}}{{% endfor %}}{{{{ q.first }}}}{{% endwith %}}",
+            f"{{% capture c %}}{{% for x in {v} %}}{{{{ x }}}}{{% endfor %}}{{% endcapture %}}[{{{{ c }}}}]",
+            f"{{% translate x: {v}.first, count: {v}.size %}}a {{{{ x }}}}{{% plural %}}b {{{{ x }}}}{{% endtranslate %}}",
+            f"{{{{ {v}.first | default: {v}.items }}}}|{{{{ {v} | where: 'first', {v}.last | size }}}}",
+        ]]
+        out += [(t, True) for t in [
+            f"{{% tablerow x in {v} %}}{{{{ x }}}}{{% endtablerow %}}",
+            f"{{% tablerow x in {v}.items cols: {v}.size %}}{{{{ x }}}}{{% endtablerow %}}",
+            f"{{% tablerow x in l cols: {v}.first limit: {v}.size %}}{{{{ x.items }}}}{{{{ x.first }}}}{{% endtablerow %}}",
+            f"{{{{ {v} | base64_encode }}}}",
+        ]]
+    return out
+
+
 def sweep_programs() -> list[tuple[list, list[tuple[str, tuple]]]]:
     """`forloop.<name>` / `forloop.parentloop.<name>` for every name, as evaluator programs."""
     from liquid2.builtin.tags.for_tag import ForLoop
@@ -1604,7 +1755,11 @@ def main(chk: C.Check, build: C.Build) -> None:
     def report(sig: str, what: str, replay: dict[str, Any]) -> None:
         chk.finding(sig if sig in KNOWN_SIGS else "oracle:" + sig, what, replay)
 
-    def oracle_run(src: str, data: list[tuple[str, tuple]], *, async_: bool = False, shopify: bool = False,
+    def oracle_run(src: str, data: list[tuple[str, tuple]], **kw: Any) -> dict[bool, tuple]:
+        """Every program is rendered with BOTH render() and render_async()."""
+        return {a: oracle_one(src, data, async_=a, **kw) for a in (False, True)}
+
+    def oracle_one(src: str, data: list[tuple[str, tuple]], *, async_: bool = False, shopify: bool = False,
                    auto_escape: bool = False, names: set[str] | None = None,
                    differential: bool = True) -> tuple:
         """Render on the implementation and evaluate the direct oracles."""
@@ -1669,35 +1824,44 @@ def main(chk: C.Check, build: C.Build) -> None:
 
     # -- 2. evaluator programs: correspondence + oracles ------------------------
     items: list[dict[str, Any]] = []
-    for prog, data in sweep_programs() + callable_programs(g):
+    for prog, data in sweep_programs() + callable_programs(g) + duck_programs(thorough):
         src = p_stmts(prog)
-        out = oracle_run(src, data, names=prog_names(prog), differential=False)
-        items.append(model_item(prog, data, False, out, src))
+        outs = oracle_run(src, data, names=prog_names(prog), differential=False)
+        items += [model_item(prog, data, a, outs[a], src) for a in (False, True)]
     n_hook = 0
     for prog, data in hook_cases():
         src = p_stmts(prog)
-        out = run_impl(src, data)           # hook sites: correspondence only
-        evaluations += 1
-        n_hook += 1
-        items.append(model_item(prog, data, False, out, src))
-    n_rand = 900 if not thorough else 12000
+        for a in (False, True):             # hook sites: correspondence only
+            out = run_impl(src, data, async_=a)
+            evaluations += 1
+            n_hook += 1
+            items.append(model_item(prog, data, a, out, src))
+    n_rand = 450 if not thorough else 7000
     for i in range(n_rand):
         data = g.data()
         prog = g.program(data)
         src = p_stmts(prog, br=r.random() < 0.2)
-        async_ = r.random() < 0.25
-        out = oracle_run(src, data, async_=async_, names=prog_names(prog))
-        dist["async"] += async_
-        if out[0] == "ok":
-            dist["ok"] += 1
-        else:
-            dist["error"] += 1
-            err_classes[out[1]] = err_classes.get(out[1], 0) + 1
-        items.append(model_item(prog, data, async_, out, src))
+        outs = oracle_run(src, data, names=prog_names(prog))
+        for a in (False, True):
+            out = outs[a]
+            dist["async"] += a
+            if out[0] == "ok":
+                dist["ok"] += 1
+            else:
+                dist["error"] += 1
+                err_classes[out[1]] = err_classes.get(out[1], 0) + 1
+            items.append(model_item(prog, data, a, out, src))
+        if outs[False][:2] != outs[True][:2]:
+            dist["sync_async_differ"] = dist.get("sync_async_differ", 0) + 1
         if i < 3:
-            samples.append({"source": src, "async": async_, "data": data, "outcome": out[:2]})
+            samples.append({"source": src, "data": data, "outcome_sync": outs[False][:2],
+                            "outcome_async": outs[True][:2]})
 
     # -- 3. every tag and every registered filter (implementation only) ---------
+    dd = duck_data()
+    for src, shop in duck_templates():
+        for ae in (False, True):
+            oracle_run(src, dd, shopify=shop, auto_escape=ae, names=set(re.findall(r"[A-Za-z_][A-Za-z0-9_]*", src)))
     env = make_env(True, False)
     fnames = sorted(env.filters)
     n_data = 70 if not thorough else 500
@@ -1715,18 +1879,20 @@ def main(chk: C.Check, build: C.Build) -> None:
             tt += [(t, True) for t in (fts if thorough else r.sample(fts, 3))]
         for src, shop in tt:
             ae = r.random() < 0.3
-            out = oracle_run(src, data, shopify=shop, auto_escape=ae, async_=r.random() < 0.15,
-                             names=set(re.findall(r"[A-Za-z_][A-Za-z0-9_]*", src)))
+            outs = oracle_run(src, data, shopify=shop, auto_escape=ae,
+                              names=set(re.findall(r"[A-Za-z_][A-Za-z0-9_]*", src)))
             if i == 0 and len(samples) < 6:
-                samples.append({"source": src, "data": "(generated)", "outcome": out[:2]})
+                samples.append({"source": src, "data": "(generated)", "outcome_sync": outs[False][:2],
+                                "outcome_async": outs[True][:2]})
         # %-interpolation of translated messages
         o = g.obj(1)
         for src, expected in INTERP_CASES:
-            out = oracle_run(src, [("o", o)])
-            exp = expected(o[1]["str"] if o[1]["kind"] != "sequence" else None) if o[1]["kind"] != "sequence" else None
-            if exp is not None and out[:2] != ("ok", exp):
-                report("translation-interpolation", f"expected {exp!r}, got {out[:2]!r}",
-                       {"source": src, "data": [("o", o)], "implementation": out})
+            outs = oracle_run(src, [("o", o)])
+            exp = expected(o[1]["str"]) if o[1]["kind"] != "sequence" else None
+            for a in (False, True):
+                if exp is not None and outs[a][:2] != ("ok", exp):
+                    report("translation-interpolation", f"expected {exp!r}, got {outs[a][:2]!r}",
+                           {"source": src, "async": a, "data": [("o", o)], "implementation": outs[a]})
 
     # -- 5. correspondence ---------------------------------------------------------
     correspond_tolerant(chk, "c05a", ka, "ForLoop/TableRow/BlockDrop.__getitem__")
